@@ -192,10 +192,56 @@ def dispatch_rule(r, work):
     return n_ok
 
 
+# dependence rule: on a two-word (128-bit) operand every utility's result depends on both words for some value, so in the
+# optimised kernel (dead code removed) both halves of the parameter must still be referenced.  A fast path that looks at
+# one word only (seeded change M-C18-4: __builtin_popcountll of the truncated value at run time) leaves the other dead.
+DEP_FNS = [("popcount", "cnl::uint128_t"), ("countl_zero", "cnl::uint128_t"), ("countr_zero", "cnl::uint128_t"), ("countl_one", "cnl::uint128_t"), ("countr_one", "cnl::uint128_t"),
+           ("ispow2", "cnl::uint128_t"), ("log2p1", "cnl::uint128_t"), ("floor2", "cnl::uint128_t"), ("ceil2", "cnl::uint128_t"), ("countl_rsb", "cnl::int128_t"),
+           ("used_digits", "cnl::int128_t"), ("used_digits", "cnl::uint128_t"), ("leading_bits", "cnl::int128_t"), ("trailing_bits", "cnl::uint128_t"), ("trailing_bits", "cnl::int128_t")]
+
+
+def dependence_rule(r, work):
+    from vlib import ir
+    src = tc.PRELUDE["clang"] + "".join('extern "C" auto dep_%d(%s x) { return cnl::%s(x); }\n' % (i, t, f) for i, (f, t) in enumerate(DEP_FNS)) + \
+        'extern "C" int dep_control(cnl::uint128_t x) { return __builtin_popcountll(static_cast<unsigned long long>(x)); }\n'
+    n_ok = 0
+    for cfg_extra, tag in (([], "rt"),):
+        p, out = os.path.join(work, "dep.cpp"), os.path.join(work, "dep.ll")
+        open(p, "w").write(src)
+        rc, so, se, cmd = tc.clang_ll(p, out, "eqr")
+        if rc != 0:
+            raise tc.AnalysisBroken("dependence TU does not compile: " + se[:1500])
+        mod = ir.parse_module(open(out).read())
+
+        def dead_words(fn):
+            body = "\n".join(l for lab in fn.order for l in fn.blocks[lab])
+            return [pn for ty, pn in fn.params if not re.search(re.escape(pn) + r"(?![\w.])", body)]
+        ctl = mod.functions.get("dep_control")
+        if ctl is None or not dead_words(ctl):
+            r.broke("dependence control: a popcount of the low word only was not reported")
+        for i, (f, t) in enumerate(DEP_FNS):
+            fn = mod.functions.get("dep_%d" % i)
+            if fn is None:
+                r.broke("dependence rule: kernel for cnl::%s(%s) vanished" % (f, t))
+                continue
+            if len(fn.params) != 2:
+                r.broke("dependence rule: cnl::%s(%s): expected the operand as two words, got %d parameters" % (f, t, len(fn.params)))
+                continue
+            dw = dead_words(fn)
+            if dw:
+                r.violation("dependence/%s/%s" % (f, t), "cnl::%s(%s): the run-time result does not depend on the %s word of the operand (parameter %s is dead in the optimised kernel)" % (
+                    f, t, "low" if dw[0] == fn.params[0][1] else "high", ",".join(dw)), {"function": f, "type": t, "ir": fn.text()})
+            else:
+                n_ok += 1
+    return n_ok
+
+
 def run(tier, seed, work):
     rng = random.Random(seed)
     r = report.Run(PROP, tier, seed, "other")
     n_dispatch = dispatch_rule(r, work)
+    n_dep = dependence_rule(r, work)
+    common.floor_check(r, "two-word dependence instances", n_dep, len(DEP_FNS))
     common.floor_check(r, "signedness-dispatch instances", n_dispatch, 2 * len(DISPATCH))
     obs = gen_eq()
     ctl = common.controls()
